@@ -884,7 +884,7 @@ class Gen(object):
             if id(t) not in used and r.random() < 0.7:
                 if isinstance(resolve(t), FuncType):
                     pt = Pointer(t)
-                elif isinstance(t, Record) and t.opaque:
+                elif self._incomplete(t):
                     pt = Pointer(t)
                 else:
                     pt = Pointer(t) if r.random() < 0.7 or getattr(t, "flex", False) or isinstance(resolve(t), Array) else t
